@@ -365,7 +365,10 @@ def run_case(case, rec):
             # blocks (which may repeat its category names) must survive
             for b in range(rng.randint(1, 2)):
                 blocks.append((rng.choice(["restraints", "model2", "B", "gen_b"]) + str(b), make_doc(rng)))
-        text = ciftok.emit_blocks(blocks)
+        # data names in column 1, indented by blanks / a tab, or on the loop_ line (CIF is free-format)
+        layout = [0, 0, 1, 2, 3][(case["i"] // 2) % 5]
+        rec.count(f"note:layout-{layout}")
+        text = ciftok.emit_blocks(blocks, layout)
         # emitter/tokenizer self check against the known abstract content
         try:
             frs = ciftok.frames(text)
